@@ -181,7 +181,11 @@ var notOpType = &operationType{Type: "NOT", NumArgs: 0, Precedence: 50, Handler:
 var toNumberOpType = &operationType{Type: "TO_NUMBER", NumArgs: 0, Precedence: 50, Handler: toNumberOperator}
 var emptyOpType = &operationType{Type: "EMPTY", Precedence: 50, Handler: emptyOperator}
 
-var envsubstOpType = &operationType{Type: "ENVSUBST", NumArgs: 0, Precedence: 50, Handler: envsubstOperator}
+// the name shown for an envsubst operation includes its options, which are kept in the operation's Value
+var envsubstOpType = &operationType{Type: "ENVSUBST", NumArgs: 0, Precedence: 50, Handler: envsubstOperator,
+	ToString: func(p *Operation) string {
+		return fmt.Sprintf("%v", p.Value)
+	}}
 
 var recursiveDescentOpType = &operationType{Type: "RECURSIVE_DESCENT", NumArgs: 0, Precedence: 50, Handler: recursiveDescentOperator}
 
